@@ -69,20 +69,20 @@ Lemma total_ents_perm (d d' : list prio) e :
 Proof. intro P. rewrite (total_perm K V sizeOf _ _ (ents_perm K V _ _ P)). reflexivity. Qed.
 
 (* ---- the eviction loop of Put ---- *)
-Lemma put_loop_spec fuel : forall (s : lru) cnt newSize log l vs,
+Lemma put_loop_spec fuel : forall (s : lru) cnt size log l vs,
   linv s -> Permutation l (ents (data (access s))) ->
   (length (data (access s)) < fuel)%nat ->
-  cnt = len (data (access s)) -> newSize = total (ents (data (access s))) + vs -> vs <= lim ->
+  cnt = len (data (access s)) -> size = total (ents (data (access s))) -> vs <= lim ->
   exists s' ev l',
-    put_evict_loop fuel s cnt newSize lim log =
-      COk (s', len (data (access s')), total (ents (data (access s'))) + vs, log ++ ev) /\
+    put_evict_loop fuel s cnt size lim vs log =
+      COk (s', len (data (access s')), total (ents (data (access s'))), log ++ ev) /\
     s1_evict l vs (map fst ev) = Some (l', ev) /\ linv s' /\ Permutation l' (ents (data (access s'))) /\
     total (ents (data (access s'))) + vs <= lim /\ incl (pkeys (data (access s'))) (pkeys (data (access s))) /\
     clock s' = clock s /\ qcmp (access s') = qcmp (access s).
 Proof.
-  induction fuel as [|f IH]; intros s cnt newSize log l vs LI P Hf Hc Hn Hv; [lia|].
+  induction fuel as [|f IH]; intros s cnt size log l vs LI P Hf Hc Hn Hv; [lia|].
   cbn [CacheModel.put_evict_loop]. unfold put_evict_continue.
-  destruct (newSize >? lim) eqn:G.
+  destruct (size >? lim - vs) eqn:G.
   - apply gtb_true in G.
     destruct (get (data (access s)) 0) as [e|] eqn:Hget.
     2:{ apply get_nil_0 in Hget. rewrite Hget in Hn. cbn in Hn. lia. }
@@ -93,12 +93,12 @@ Proof.
     { rewrite P. exact (ents_perm K V _ _ P1). }
     assert (F : find l (key e) = Some (value e)).
     { apply (find_In K V keqb keqb_spec); [exact ND|]. apply (Permutation_in _ (Permutation_sym P')). left. reflexivity. }
-    destruct (IH s1 (put_evict_count cnt) (put_newsize_evict newSize (sizeOf (value e)))
+    destruct (IH s1 (put_evict_count cnt) (put_evict_size size (sizeOf (value e)))
                  (log ++ fires K V put_ncalls_onEvict 2 (key e, value e)) (del l (key e)) vs LI1) as (s' & ev & l' & HL & HS & LI' & PL & Hfit & Hinc & Hck' & Hq').
     + exact (del_perm_inv K V keqb keqb_spec _ _ _ _ ND P').
     + apply Permutation_length in P1. cbn in P1. lia.
     + unfold put_evict_count. rewrite (len_perm _ _ _ P1). lia.
-    + unfold put_newsize_evict. rewrite (total_ents_perm _ _ _ P1) in Hn. lia.
+    + unfold put_evict_size. rewrite (total_ents_perm _ _ _ P1) in Hn. lia.
     + exact Hv.
     + exists s', ((key e, value e) :: ev), l'. rewrite HL.
       split. { unfold fires, put_ncalls_onEvict. cbn. rewrite <- app_assoc. reflexivity. }
@@ -110,7 +110,7 @@ Proof.
       split; [exact LI'|]. split; [exact PL|]. split; [exact Hfit|].
       split. { intros k Hk. apply Hinc in Hk. apply (Permutation_in _ (Permutation_sym (pkeys_perm K V _ _ P1))). right. exact Hk. }
       split; congruence.
-  - apply gtb_false in G. exists s, [], l. rewrite app_nil_r. subst cnt newSize.
+  - apply gtb_false in G. exists s, [], l. rewrite app_nil_r. subst cnt size.
     split; [reflexivity|]. split.
     { cbn. assert (G' : total l + vs >? lim = false).
       { apply gtb_false. rewrite (total_perm K V sizeOf _ _ P). lia. }
@@ -186,16 +186,15 @@ Proof.
       linv s1 -> Permutation l1 (ents (data (access s1))) -> ~ In k (pkeys (data (access s1))) ->
       cnt1 = len (data (access s1)) -> size1 = total (ents (data (access s1))) ->
       exists c' ev l2,
-        (cdo (s2, cnt2, newSize2, log2) <-
-           put_evict_loop (S (length (data (access s1)))) s1 cnt1 (put_newsize_init size1 (sizeOf v)) lim log1;
+        (cdo (s2, cnt2, size2, log2) <-
+           put_evict_loop (S (length (data (access s1)))) s1 cnt1 size1 lim (sizeOf v) log1;
          cdo s3 <- lru_store s2 k v;
-         COk ({| store := s3; csize := put_final_size newSize2; count := put_final_count cnt2; limit := lim |}, true, log2))
+         COk ({| store := s3; csize := put_final_size size2 (sizeOf v); count := put_final_count cnt2; limit := lim |}, true, log2))
         = COk (c', true, log1 ++ ev) /\
         s1_evict l1 (sizeOf v) (map fst ev) = Some (l2, ev) /\ R1 c' (l2 ++ [(k, v)])).
     { intros s1 size1 cnt1 log1 l1 LI1 P1 Nin1 Hc1 Hs1.
-      destruct (put_loop_spec (S (length (data (access s1)))) s1 cnt1 (put_newsize_init size1 (sizeOf v)) log1 l1 (sizeOf v) LI1 P1)
+      destruct (put_loop_spec (S (length (data (access s1)))) s1 cnt1 size1 log1 l1 (sizeOf v) LI1 P1)
         as (s2 & ev & l2 & HL & HS & LI2 & P2 & Hfit & Hinc & _ & _); try assumption; try lia.
-      { unfold put_newsize_init. lia. }
       assert (Nin2 : ~ In k (pkeys (data (access s2)))) by (intro H; apply Nin1; exact (Hinc _ H)).
       destruct (store_spec K V keqb keqb_spec hv HF_add s2 k v LI2 Nin2) as (s3 & HSt & LI3 & P3 & _ & _).
       eexists. exists ev, l2. rewrite HL. cbn [cbind]. rewrite HSt. cbn [cbind].
